@@ -822,7 +822,8 @@ class PowTheory(object):
         ex.axiom(z3.And(v >= 0, (v == 0) == (t == 0)))
         if e == fractions.Fraction(1, 2):
             ex.axiom(v * v == t)
-        if e == 2:
+        if e == 2 and not self.compose:
+            # (the derivative harness works with the composition rewriting and keeps its queries at degree 2)
             ex.axiom(v == t * t)
         existing = list(self.apps)
         self.apps.append((e, t, v))
